@@ -125,7 +125,14 @@ def neighbours(case, rng, shard, nshards):
 
 
 def mksig(sd):
-    s = cm.Signal("s", size=sd["size"], is_signed=sd["signed"], factor=dec_of(sd["factor"]), offset=dec_of(sd["offset"]))
+    if sd["size"] % 2:
+        s = cm.Signal("s", size=sd["size"], is_signed=sd["signed"], factor=dec_of(sd["factor"]), offset=dec_of(sd["offset"]))
+    else:
+        # the signedness is assigned after construction and the default limits are computed anew, as an editor does
+        s = cm.Signal("s", size=sd["size"], is_signed=not sd["signed"], factor=dec_of(sd["factor"]), offset=dec_of(sd["offset"]))
+        s.is_signed = sd["signed"]
+        s.set_min(None)
+        s.set_max(None)
     for k, v in sd["values"]:
         s.add_values(k, v)
     return s
